@@ -51,41 +51,11 @@ Definition grun (o : vopts) (rm : bool) (l : list hstep) : vfs * ghost :=
 Definition mapping_expected (s : vfs) (mo : option mapping) : option mapping :=
   match mo with Some m => Some m | None => v_gmap s end.
 
-Definition mapping_of_full : Prop := forall o rm l idx mo,
-  snd (grun o rm l) idx = Some mo ->
-  effective_mapping (fst (grun o rm l)) idx = mapping_expected (fst (grun o rm l)) mo.
-
-(* ---------- refuted: over-mount leaves the slot's table entry, wrap-around hands the slot to a mount
-   without a mapping ---------- *)
-Definition okm : mount_ans := mkMA 0 1 0 0 0 1000 0.
-Fixpoint cycles (n : nat) : list hstep :=
-  match n with O => [] | S k => HMount 50 (mkPath true [CNorm 2]) None okm :: HUmount (mkPath true [CNorm 2]) :: cycles k end.
-Definition stale_history : list hstep :=
-  HMount 10 (mkPath true [CNorm 1]) (Some (0, 100000, 65536)) okm ::
-  HMount 11 (mkPath true [CNorm 1]) None okm ::
-  cycles 253 ++ [HMount 12 (mkPath true [CNorm 3]) None okm].
-
-Theorem mapping_of_refuted : ~ mapping_of_full.
-Proof.
-  intros F. specialize (F default_opts false stale_history 1 None).
-  assert (G : snd (grun default_opts false stale_history) 1 = Some None) by (vm_compute; reflexivity).
-  specialize (F G). vm_compute in F. discriminate F.
-Qed.
-
-(* ---------- partial: histories without over-mounts in which every mount that is given a mapping succeeds ---------- *)
-Definition clean_step (s : vfs) (st : hstep) : Prop :=
-  match st with
-  | HMount bid p map a => overmounted s p = None /\ (map = None \/ exists idx, snd (fst (vfs_mount s bid p map a)) = VOk idx)
-  | _ => True
-  end.
-
-Fixpoint clean_from (sg : vfs * ghost) (l : list hstep) : Prop :=
-  match l with [] => True | st :: r => clean_step (fst sg) st /\ clean_from (gstep sg st) r end.
-
+(* ---------- the invariant: a slot with an attached mount holds exactly the mapping given to that mount ---------- *)
 Record ginv (s : vfs) (g : ghost) : Prop := mkGinv {
   gi_wf : wf s;
   gi_sb : forall i, g i = None <-> aget i (v_sb s) = None;
-  gi_maps : forall i, aget i (v_maps s) = match g i with Some (Some m) => Some m | _ => None end }.
+  gi_maps : forall i mo, g i = Some mo -> aget i (v_maps s) = mo }.
 
 Lemma insert_mount_sb s bid e idx p s' : insert_mount s bid e idx p = (s', Ok tt) ->
   v_sb s' = aset idx bid (match overmounted s p with Some oi => adel oi (v_sb s) | None => v_sb s end).
@@ -103,9 +73,13 @@ Proof.
   intros H Hr. inversion H; subst r. contradiction.
 Qed.
 
-Lemma overmounted_irrelevant s n m p :
-  overmounted (match m with Some x => with_maps (with_next s n) x | None => with_next s n end) p = overmounted s p.
-Proof. destruct m; reflexivity. Qed.
+(* an over-mount vacates the slot of an attached mount, never the freshly allocated one *)
+Lemma overmounted_attached s p oi : wf s -> overmounted s p = Some oi -> aget oi (v_sb s) <> None.
+Proof.
+  intros W. unfold overmounted. destruct (ps_mount (v_ps s) p) as [[ps' pino]| |]; try discriminate.
+  destruct (aget pino (v_mps s)) as [m|] eqn:Em; [|discriminate]. cbn. intros H. inversion H; subst oi.
+  destruct (wf_mp s W _ _ Em) as (_ & _ & _ & _ & Hatt). exact Hatt.
+Qed.
 
 Lemma vfs_init_same s o e : let s' := fst (fst (vfs_init s o e)) in v_sb s' = v_sb s /\ v_maps s' = v_maps s.
 Proof.
@@ -121,12 +95,11 @@ Proof.
   destruct (v_init s); cbn; auto.
 Qed.
 
-Lemma gstep_ginv s g st : ginv s g -> clean_step s st -> ginv (fst (gstep (s, g) st)) (snd (gstep (s, g) st)).
+Lemma gstep_ginv s g st : ginv s g -> ginv (fst (gstep (s, g) st)) (snd (gstep (s, g) st)).
 Proof.
-  intros [W Gsb Gmaps] Hc. destruct st as [bid p map a| p | o e |]; cbn [gstep].
-  - (* mount *)
-    destruct Hc as [Hno Hok].
-    destruct (vfs_mount s bid p map a) as [[s' r] evs] eqn:Em. cbn [fst snd] in Hok.
+  intros [W Gsb Gmaps]. destruct st as [bid p map a| p | o e |]; cbn [gstep].
+  - (* mount, over-mount, failed mount *)
+    destruct (vfs_mount s bid p map a) as [[s' r] evs] eqn:Em.
     pose proof (vfs_mount_wf _ _ _ _ _ _ _ _ W Em) as W'.
     unfold vfs_mount in Em.
     destruct (negb (ma_err a =? 0)); [inversion Em; subst; cbn; constructor; assumption|].
@@ -138,35 +111,39 @@ Proof.
     2:{ inversion Em; subst; cbn. constructor; [exact W'| exact Gsb | exact Gmaps]. }
     destruct (allocate_free _ _ _ W Ea) as (Hidx & Hfree & _).
     set (s1 := with_next s nx) in *.
-    set (s2 := match map with Some m => with_maps s1 (aset idx m (v_maps s1)) | None => s1 end) in *.
+    set (s2 := with_maps s1 (match map with Some m => aset idx m (v_maps s1) | None => adel idx (v_maps s1) end)) in *.
     destruct (insert_mount s2 bid (root_entry_of a) idx p) as [s3 r3] eqn:Ei.
     assert (Hgidx : g idx = None) by (apply Gsb; exact Hfree).
-    assert (Hsb2 : v_sb s2 = v_sb s) by (unfold s2, s1; destruct map; reflexivity).
+    assert (Hm2 : forall j, j <> idx -> aget j (v_maps s2) = aget j (v_maps s)).
+    { intros j Hj. unfold s2, s1. cbn [v_maps with_maps with_next]. destruct map; [apply aget_aset_other|apply aget_adel_other]; exact Hj. }
+    assert (Hm2i : aget idx (v_maps s2) = map).
+    { unfold s2, s1. cbn [v_maps with_maps with_next]. destruct map; [apply aget_aset_same|apply aget_adel_same]. }
     destruct r3 as [[]|x|].
     + (* success *)
-      inversion Em; subst s' r evs. cbn [fst snd]. rewrite Hno.
+      inversion Em; subst s' r evs. cbn [fst snd].
       destruct (insert_mount_root _ _ _ _ _ _ Ei) as (Hm & _ & _).
       pose proof (insert_mount_sb _ _ _ _ _ _ Ei) as Hsb.
-      assert (Ho2 : overmounted s2 p = None).
-      { unfold s2, s1. destruct map; exact Hno. }
-      rewrite Ho2 in Hsb.
-      assert (Hm2 : v_maps s2 = match map with Some m => aset idx m (v_maps s) | None => v_maps s end)
-        by (unfold s2, s1; destruct map; reflexivity).
+      change (overmounted s2 p) with (overmounted s p) in Hsb. change (v_sb s2) with (v_sb s) in Hsb.
       constructor; [exact W'| |].
-      * intros i. unfold gset. rewrite Hsb, Hsb2, aget_aset. destruct (i =? idx); [split; discriminate|apply Gsb].
-      * intros i. unfold gset. rewrite Hm, Hm2. destruct (i =? idx) eqn:E.
-        -- apply N.eqb_eq in E. subst i. destruct map; [apply aget_aset_same|].
-           rewrite Gmaps, Hgidx. reflexivity.
-        -- apply N.eqb_neq in E. destruct map; [rewrite aget_aset_other by exact E|]; apply Gmaps.
-    + (* insertion failed: only allowed without a mapping *)
+      * intros i. unfold gset. rewrite Hsb, aget_aset. destruct (i =? idx) eqn:E; [split; discriminate|].
+        destruct (overmounted s p) as [oi|] eqn:Eo; [|apply Gsb].
+        rewrite aget_adel. destruct (i =? oi); [split; reflexivity|apply Gsb].
+      * intros i mo. unfold gset. rewrite Hm. destruct (i =? idx) eqn:E.
+        -- apply N.eqb_eq in E. subst i. intros H. inversion H; subst mo. exact Hm2i.
+        -- apply N.eqb_neq in E. rewrite (Hm2 i E). destruct (overmounted s p) as [oi|]; [|apply Gmaps].
+           destruct (i =? oi); [discriminate|apply Gmaps].
+    + (* insertion failed: the slot's entry is cleared again; nothing else changed *)
       inversion Em; subst s' r evs. cbn [fst snd].
-      destruct Hok as [-> | [i Hi]]; [|discriminate Hi].
       destruct (insert_mount_fail _ _ _ _ _ _ _ Ei ltac:(discriminate)) as (A & B & _).
-      constructor; [exact W'| |]; intros i; [rewrite A|rewrite B]; unfold s2, s1; cbn; [apply Gsb|apply Gmaps].
+      constructor; [exact W'| |]; cbn [with_maps v_sb v_maps].
+      * intros i. rewrite A. apply Gsb.
+      * intros i mo Hg. assert (i <> idx) by (intros ->; congruence).
+        rewrite aget_adel_other by assumption. rewrite B, (Hm2 i H). apply Gmaps. exact Hg.
     + inversion Em; subst s' r evs. cbn [fst snd].
-      destruct Hok as [-> | [i Hi]]; [|discriminate Hi].
       destruct (insert_mount_fail _ _ _ _ _ _ _ Ei ltac:(discriminate)) as (A & B & _).
-      constructor; [exact W'| |]; intros i; [rewrite A|rewrite B]; unfold s2, s1; cbn; [apply Gsb|apply Gmaps].
+      constructor; [exact W'| |].
+      * intros i. rewrite A. apply Gsb.
+      * intros i mo Hg. assert (i <> idx) by (intros ->; congruence). rewrite B, (Hm2 i H). apply Gmaps. exact Hg.
   - (* umount *)
     destruct (vfs_umount s p) as [[s' r] evs] eqn:Eu.
     pose proof (vfs_umount_wf _ _ _ _ _ W Eu) as W'.
@@ -177,11 +154,9 @@ Proof.
     destruct (if v_rm s then ps_evict (v_ps s) inode else Ok (v_ps s)) as [ps'| |];
       try (inversion Eu; subst; cbn; constructor; assumption).
     inversion Eu; subst s' r evs. cbn [fst snd option_map].
-    constructor; [exact W'| |]; intros i; unfold gset; cbn [v_sb v_maps]; rewrite aget_adel; destruct (i =? mp_idx x).
-    + split; reflexivity.
-    + apply Gsb.
-    + reflexivity.
-    + apply Gmaps.
+    constructor; [exact W'| |]; unfold gset; cbn [v_sb v_maps].
+    + intros i. rewrite aget_adel. destruct (i =? mp_idx x); [split; reflexivity|apply Gsb].
+    + intros i mo. rewrite aget_adel. destruct (i =? mp_idx x); [discriminate|apply Gmaps].
   - (* init *)
     cbn [fst snd]. pose proof (vfs_init_same s o e) as [A B].
     destruct (vfs_init s o e) as [[s' r] evs] eqn:Ei. cbn [fst] in *.
@@ -193,35 +168,42 @@ Qed.
 
 Lemma ginv_new o rm : ginv (vfs_new o rm) (fun _ => None).
 Proof.
-  constructor; [apply wf_new| |]; intros i; cbn; [split; reflexivity|reflexivity].
+  constructor; [apply wf_new| |]; intros i; cbn; [split; reflexivity|discriminate].
 Qed.
 
-Lemma clean_run : forall l sg, ginv (fst sg) (snd sg) -> clean_from sg l ->
-  ginv (fst (fold_left gstep l sg)) (snd (fold_left gstep l sg)).
+Lemma run_ginv : forall l sg, ginv (fst sg) (snd sg) -> ginv (fst (fold_left gstep l sg)) (snd (fold_left gstep l sg)).
 Proof.
-  induction l as [|st r IH]; intros [s g] Hi Hc; [exact Hi|].
-  cbn [fold_left]. destruct Hc as [Hs Hr]. apply IH; [|exact Hr].
-  apply gstep_ginv; assumption.
+  induction l as [|st r IH]; intros [s g] Hi; [exact Hi|].
+  cbn [fold_left]. apply IH. apply gstep_ginv. exact Hi.
 Qed.
 
-Theorem mapping_of_partial : forall o rm l idx mo,
-  clean_from (vfs_new o rm, fun _ => None) l ->
+(* after ANY history -- over-mounts, mounts that fail after their index was allocated, any number of wrap-arounds --
+   the mapping in force for a slot is the one given to the mount attached there, else the global one *)
+Theorem mapping_of_full : forall o rm l idx mo,
   snd (grun o rm l) idx = Some mo ->
   effective_mapping (fst (grun o rm l)) idx = mapping_expected (fst (grun o rm l)) mo.
 Proof.
-  intros o rm l idx mo Hc Hg. unfold grun in *.
-  pose proof (clean_run l (vfs_new o rm, fun _ => None) (ginv_new o rm) Hc) as [_ _ Gm].
-  unfold effective_mapping, mapping_expected. rewrite Gm, Hg. destruct mo; reflexivity.
+  intros o rm l idx mo Hg. unfold grun in *.
+  pose proof (run_ginv l (vfs_new o rm, fun _ => None) (ginv_new o rm)) as [_ _ Gm].
+  unfold effective_mapping, mapping_expected. rewrite (Gm idx mo Hg). destruct mo; reflexivity.
 Qed.
 
-(* non-vacuity: a clean history with a mapped and an unmapped mount *)
-Example clean_example :
-  let l := [HMount 10 (mkPath true [CNorm 1]) (Some (0, 100000, 65536)) okm; HMount 11 (mkPath true [CNorm 2]) None okm;
-            HUmount (mkPath true [CNorm 1]); HMount 12 (mkPath true [CNorm 3]) None okm] in
-  clean_from (vfs_new default_opts false, fun _ => None) l /\
-  snd (grun default_opts false l) 2 = Some None /\ snd (grun default_opts false l) 3 = Some None.
-Proof.
-  cbv zeta. split; [|split; vm_compute; reflexivity].
-  cbn [clean_from clean_step]. repeat split; try (vm_compute; reflexivity); try (left; reflexivity).
-  right. exists 1. vm_compute. reflexivity.
-Qed.
+(* the history that used to defeat it: a mapped mount is over-mounted, 253 mount/umount cycles wrap the index counter,
+   a mount without a mapping is handed the vacated slot 1 and gets the global (here: no) mapping *)
+Definition okm : mount_ans := mkMA 0 1 0 0 0 1000 0.
+Fixpoint cycles (n : nat) : list hstep :=
+  match n with O => [] | S k => HMount 50 (mkPath true [CNorm 2]) None okm :: HUmount (mkPath true [CNorm 2]) :: cycles k end.
+Definition stale_history : list hstep :=
+  HMount 10 (mkPath true [CNorm 1]) (Some (0, 100000, 65536)) okm ::
+  HMount 11 (mkPath true [CNorm 1]) None okm ::
+  cycles 253 ++ [HMount 12 (mkPath true [CNorm 3]) None okm].
+Example slot_reuse_clean :
+  snd (grun default_opts false stale_history) 1 = Some None /\
+  aget 1 (v_sb (fst (grun default_opts false stale_history))) = Some 12 /\
+  effective_mapping (fst (grun default_opts false stale_history)) 1 = None.
+Proof. vm_compute. repeat split. Qed.
+(* a mount given a mapping fails after its index was allocated (unrooted path); nothing is left behind *)
+Example failed_mount_clean :
+  let l := [HMount 10 (mkPath false [CNorm 1]) (Some (0, 100000, 65536)) okm] in
+  v_maps (fst (grun default_opts false l)) = [] /\ v_next (fst (grun default_opts false l)) = 2.
+Proof. vm_compute. split; reflexivity. Qed.
